@@ -634,7 +634,23 @@ def subst(t: Term, mapping: Dict[Term, Term], _memo=None) -> Term:
     k = t[0]
     r = t
     S = lambda x: subst(x, mapping, _memo)
-    if k in ("sym", "const", "closure", "unk"):
+    if k == "sym":
+        r = t
+        if "." in t[1]:
+            syms = _memo.get("__syms__")
+            if syms is None:
+                syms = {m[1] for m in mapping if m[0] == "sym"}
+                _memo["__syms__"] = syms
+            if syms:
+                parts = t[1].split(".")
+                for i in range(len(parts) - 1, 0, -1):
+                    prefix = ".".join(parts[:i])
+                    if prefix in syms:
+                        r = mapping[("sym", prefix)]
+                        for p in parts[i:]:
+                            r = mk_attr(r, p)
+                        break
+    elif k in ("const", "closure", "unk"):
         r = t
     elif k == "num":
         def ev(poly):
